@@ -61,11 +61,23 @@ def setup_worker():
 
 
 # ------------------------------------------------------------------ generators
-def gen_setorder(r):
+def gen_setorder(r, strict=False):
     names = ["x", "y", "cv", "flag1", "flag0"]
     parts = ["<%!\nimport os\nMODV = 'mv'\ndef helper(v):\n    return 'h(' + str(v) + ')'\n%>"]
     used = r.sample(names, r.randint(2, 5))
+    if strict:
+        # several names that nothing defines, rendered with strict_undefined: WHICH one the NameError names must not
+        # depend on the hash seed or the path either
+        missing = ["m_" + "".join(r.choice("abcdefghijklmnopqrstuvwxyz") for _ in range(r.randint(1, 6))) for _ in range(r.randint(2, 5))]
+        used = used + missing
+        r.shuffle(used)
     parts.append("BODY[" + "|".join("${%s}" % n for n in used) + "]")
+    if r.random() < 0.5:
+        # sibling defs nested in one def, the default of one calling another: they must be defined in an order that
+        # does not vary (alphabetical, so that this one works)
+        a, b, c = sorted("n" + "".join(r.choice("abcdefghijklmnopqrstuvwxyz") for _ in range(3)) + str(k) for k in range(3))
+        parts.append('<%%def name="sib()"><%%def name="%s()">SA</%%def><%%def name="%s(v=%s())">SB(${v})</%%def><%%def name="%s(w=%s())">SC(${w})</%%def>${%s()}</%%def>${sib()}'
+                     % (a, b, a, c, b, c))
     ndefs = r.randint(1, 5)
     for i in range(ndefs):
         dflt = r.choice(["len(MODV)", "str(3)", "dict(a=1)", "helper(MODV)", "sorted({3, 1, 2})", "max(1, 2)", "repr('q')", "os.sep"])
@@ -112,6 +124,8 @@ def gen_template(r):
             return gen_template(r)
         return "c01", src, []
     if k < 0.85:
+        if r.random() < 0.25:
+            return "setorder-strict", gen_setorder(r, strict=True), []
         return "setorder", gen_setorder(r), []
     text, defs = gen_defsonly(r)
     return "defsonly", text, defs
@@ -128,6 +142,8 @@ def outcome(fn):
 def norm_exc(o):
     # messages may embed module names / object addresses that legitimately differ between paths
     if o[0] == "exc":
+        if o[1].startswith("NameError:"):
+            return ("exc", o[1][:200])  # (names no address or module; WHICH name is missing is part of the outcome)
         return ("exc", o[1].split(":")[0])
     return o
 
@@ -186,13 +202,17 @@ def run_template(kind, text, defs, d, res, items, enc="utf-8", input_encoding=No
     with open(fn, "w", encoding=enc, newline="") as f:
         f.write(text)
 
+    strict = kind.endswith("-strict")
+
     def T(*a, **kw):
         if "filename" in kw and input_encoding:
             kw["input_encoding"] = input_encoding
+        if strict:
+            kw["strict_undefined"] = True
         return T0(*a, **kw)
 
     md = os.path.join(d, "mods")
-    rc = {"kind": "one", "text": text, "defs": defs, "enc": enc, "input_encoding": input_encoding}
+    rc = {"kind": "one", "text": text, "defs": defs, "enc": enc, "input_encoding": input_encoding, "strict": strict}
     outs = {}
     tpls = {}
 
@@ -230,7 +250,7 @@ def run_template(kind, text, defs, d, res, items, enc="utf-8", input_encoding=No
         outs["ModuleTemplate"] = outcome(via_module_template)
         res.count("module_template_renders")
     # the mako-render command
-    if not input_encoding:  # the command has no option to name the input encoding
+    if not input_encoding and not strict:  # the command has no option to name the input encoding (or strict_undefined)
         ofile = os.path.join(d, "cmd.out")
 
         def via_cmd():
@@ -331,7 +351,7 @@ def run_template(kind, text, defs, d, res, items, enc="utf-8", input_encoding=No
             b = norm_exc(outcome(lambda: T(text + "${%s()}" % dn).render_unicode(**CTX)))
             if a != b:
                 res.violate("get-def-differs", "template %r path %s: get_def(%r).render gives %r, calling it from a wrapper gives %r" % (text, name, dn, a, b), replay_case=rc)
-    items.append({"text": text, "file": fn, "moddir": md, "ctx": CTX, "input_encoding": input_encoding, "enc": enc, "ref": outs.get("string"), "defs": deflists.get("string", [[], []])[0]})
+    items.append({"strict": strict, "text": text, "file": fn, "moddir": md, "ctx": CTX, "input_encoding": input_encoding, "enc": enc, "ref": outs.get("string"), "defs": deflists.get("string", [[], []])[0]})
     if ref[0] == "out" and (defs or "<%def" in text or any(ord(c) > 127 for c in text)):
         res.nontrivial("c08", text)
     if res.sample is None:
@@ -355,7 +375,7 @@ def run_children(items, base, res):
             ref = norm_exc(tuple(item["ref"])) if item["ref"] else None
             for pname, o in got.items():
                 res.evaluations += 1
-                cur = ("out", o["out"]) if "out" in o else ("exc", o["exc"].split(":")[0])
+                cur = ("out", o["out"]) if "out" in o else norm_exc(("exc", o["exc"]))
                 if ref is not None and cur != ref:
                     res.violate(
                         "hash-seed-or-process-differs-" + pname,
@@ -566,7 +586,7 @@ def run_case(case):
         base = os.path.join(_st["tmp"], "o%d" % _st["n"])
         os.makedirs(base)
         items = []
-        run_template("replay", case["text"], case.get("defs", []), base, res, items, case.get("enc", "utf-8"), case.get("input_encoding"))
+        run_template("replay-strict" if case.get("strict") else "replay", case["text"], case.get("defs", []), base, res, items, case.get("enc", "utf-8"), case.get("input_encoding"))
         run_children(items, base, res)
         shutil.rmtree(base, ignore_errors=True)
     return res
